@@ -21,13 +21,17 @@ Definition has_real (l : list citem) : bool := existsb (fun c => realk (ci_kind 
 (* a closure instance in the main queue was submitted after the last [Core::new] *)
 Definition MQ (s : st) : Prop := has_real (mainq s) = true -> sub_since_new (tr s) = true.
 
-Definition okev (e : ev) : bool := match e with ENew _ => false | _ => true end.
+Definition okev (e : ev) : bool := match e with ENew _ | ELeak _ _ => false | _ => true end.
+
+(* no leak report yet *)
+Definition nlk (t : list ev) : bool := forallb (fun e => match e with ELeak _ _ => false | _ => true end) t.
 
 Record R (s0 s : st) : Prop := mkR {
   r_dk : dk s = dk s0;
   r_alive : alive s = alive s0;
   r_lit : has_core s0 = false -> lazyq s = lazyq s0 /\ idleq s = idleq s0 /\ timers s = timers s0;
-  r_mq : MQ s0 -> MQ s }.
+  r_mq : MQ s0 -> MQ s;
+  r_nl : nlk (tr s0) = true -> nlk (tr s) = true }.
 
 Lemma R_refl s : R s s.
 Proof. split; auto. Qed.
@@ -35,9 +39,10 @@ Proof. split; auto. Qed.
 Lemma R_same s0 s s' : R s0 s -> dk s' = dk s -> alive s' = alive s -> lazyq s' = lazyq s -> idleq s' = idleq s ->
   timers s' = timers s -> mainq s' = mainq s -> tr s' = tr s -> R s0 s'.
 Proof.
-  intros [A B C D] E1 E2 E3 E4 E5 E6 E7. split; try congruence.
+  intros [A B C D NL] E1 E2 E3 E4 E5 E6 E7. split; try congruence.
   - intros H. destruct (C H) as (C1 & C2 & C3). repeat split; congruence.
   - intros H. specialize (D H). unfold MQ in *. rewrite E6, E7. exact D.
+  - intros H. rewrite E7. exact (NL H).
 Qed.
 
 Lemma ssn_emit e t : okev e = true -> sub_since_new t = true -> sub_since_new (e :: t) = true.
@@ -45,40 +50,42 @@ Proof. intros O H. destruct e; simpl; auto; try discriminate O. Qed.
 
 Lemma R_emit s0 s e : R s0 s -> okev e = true -> R s0 (emit s e).
 Proof.
-  intros [A B C D] O. split; auto.
-  intros H. specialize (D H). unfold MQ in *. intros G. apply ssn_emit; auto.
+  intros [A B C D NL] O. split; auto.
+  - intros H. specialize (D H). unfold MQ in *. intros G. apply ssn_emit; auto.
+  - intros H. specialize (NL H). change (nlk (e :: tr s) = true). unfold nlk in *. cbn [forallb]. rewrite NL. destruct e; try reflexivity; discriminate O.
 Qed.
 
 Lemma has_real_app a b : has_real (a ++ b) = has_real a || has_real b.
 Proof. apply existsb_app. Qed.
 
 Lemma R_submit_main s0 s ci : R s0 s -> R s0 (submit s QMain ci).
-Proof. intros [A B C D]. split; auto. intros H G. reflexivity. Qed.
+Proof. intros [A B C D NL]. split; auto. intros H G. reflexivity. Qed.
 
 Lemma R_submit_core s0 s q ci : R s0 s -> has_core s0 = true -> R s0 (submit s q ci).
 Proof.
-  intros [A B C D] HC. split.
+  intros [A B C D NL] HC. split.
   - destruct q; exact A.
   - destruct q; exact B.
   - intros H. congruence.
   - intros H G. destruct q; reflexivity.
+  - intros H. destruct q; exact (NL H).
 Qed.
 
 Lemma R_push_main s0 s ci : R s0 s -> realk (ci_kind ci) = false -> R s0 (push_main s ci).
 Proof.
-  intros [A B C D] K. split; auto. intros H. specialize (D H). unfold MQ in *. unfold push_main. cbn [mainq tr set_mainq].
+  intros [A B C D NL] K. split; auto. intros H. specialize (D H). unfold MQ in *. unfold push_main. cbn [mainq tr set_mainq].
   rewrite has_real_app. cbn [has_real existsb]. rewrite K. rewrite !orb_false_r. exact D.
 Qed.
 
 Lemma R_timer_add s0 s k v t ci : R s0 s -> has_core s0 = true -> R s0 (timer_add s k v t ci).
 Proof.
-  intros [A B C D] HC. split; auto.
+  intros [A B C D NL] HC. split; auto.
   - intros H. congruence.
   - intros H G. reflexivity.
 Qed.
 
 Lemma R_set_timers s0 s l : R s0 s -> has_core s0 = true -> R s0 (set_timers s l).
-Proof. intros [A B C D] HC. split; auto. intros H. congruence. Qed.
+Proof. intros [A B C D NL] HC. split; auto. intros H. congruence. Qed.
 
 Ltac same_tac := intros H; eapply R_same; [exact H | reflexivity ..].
 
@@ -213,19 +220,12 @@ Proof.
   apply IH. apply R_emit_opt; auto. intros e E. eapply class_flag_okev; eauto.
 Qed.
 
-Lemma ssn_app l t : forallb okev l = true -> sub_since_new t = true -> sub_since_new (l ++ t) = true.
+(* the leak report itself *)
+Lemma MQ_set_tr s l : forallb (fun e => match e with ENew _ => false | _ => true end) l = true -> MQ s -> MQ (set_tr s (l ++ tr s)).
 Proof.
-  induction l as [|e l IH]; simpl; auto. intros H G. apply andb_prop in H as [H1 H2].
-  apply (ssn_emit e (l ++ t) H1). apply IH; auto.
+  intros O M G. specialize (M G). cbn [tr set_tr]. clear G. induction l as [|e l IH]; simpl in *; auto.
+  apply andb_prop in O as [O1 O2]. specialize (IH O2). destruct e; auto; discriminate O1.
 Qed.
-
-Lemma R_set_tr s0 s l : R s0 s -> forallb okev l = true -> R s0 (set_tr s (l ++ tr s)).
-Proof.
-  intros [A B C D] O. split; auto. intros H. specialize (D H). unfold MQ in *. cbn [mainq tr set_tr]. intros G. apply ssn_app; auto.
-Qed.
-
-Lemma okev_leaks l : forallb okev (rev (map (fun p : N * N => ELeak (fst p) (snd p)) l)) = true.
-Proof. apply forallb_forall. intros e E. apply in_rev, in_map_iff in E as (p & <- & _). reflexivity. Qed.
 
 Ltac r_tac :=
   repeat first
@@ -293,9 +293,9 @@ Proof. unfold do_top. destruct o; repeat dest_match; try solve [rr_tac]. Qed.
 Definition is_phase (m : mop) : bool :=
   match m with MNew _ | MRunIdle _ | MRunMain _ | MLoop _ | MDrain _ | MDropFields | MDropEnd => true | _ => false end.
 
-Lemma handle_R m s pre s' : is_phase m = false -> handle m s = (pre, s') -> R s s'.
+Lemma handle_R m s pre s' : is_phase m = false -> m <> MLeaks -> handle m s = (pre, s') -> R s s'.
 Proof.
-  intros P. destruct m; try discriminate P; cbn [handle].
+  intros P NLK. destruct m; try discriminate P; cbn [handle].
   - apply do_top_R.
   - destruct l as [|a l]; [rr_tac|]. destruct (do_act a s) as [p s1] eqn:E. intros Q; inversion Q; subst. eapply do_act_R; eauto.
   - destruct (frames s); rr_tac.
@@ -316,5 +316,5 @@ Proof.
   - repeat dest_match; rr_tac.
   - destruct (amin (env s)) as [[h v]|]; rr_tac.
   - rr_tac.
-  - intros Q; inversion Q; subst. apply R_set_tr; [apply R_class_flags, R_refl | apply okev_leaks].
+  - exfalso. apply NLK. reflexivity.
 Qed.
